@@ -43,6 +43,7 @@ type hScenario struct {
 	Ops        []hOp  `json:"ops"`
 	Finite     bool   `json:"finite,omitempty"`
 	Reset      string `json:"reset,omitempty"`        // checkpoint.autoReset
+	SkipAt     int    `json:"skip_at,omitempty"`      // >0: dcp.listener.skipUntil = event time of seqno SkipAt (earlier document events are dropped)
 	MetaBucket string `json:"meta_bucket,omitempty"`  // metadata.config.bucket (couchbase metadata placed in another bucket)
 	EndOnClose bool   `json:"end_on_close,omitempty"` // the server confirms every CloseStream with STREAM_END(closed), as a real node does
 	File       bool   `json:"file,omitempty"`         // real file metadata backend (whole-state writes) instead of the per-vBucket fake
@@ -68,8 +69,9 @@ type mev struct {
 	delivered *delivered
 	acked     bool
 	absorbed  bool
-	settledAt int // step index at which it was settled (-1 = not)
-	markerNo  int // number of markers announced on the vBucket when the event was sent
+	settledAt int  // step index at which it was settled (-1 = not)
+	markerNo  int  // number of markers announced on the vBucket when the event was sent
+	skipped   bool // dropped by skipUntil
 }
 
 type mvb struct {
@@ -184,6 +186,10 @@ func newSession(sc *hScenario, oracles ...string) *session {
 	}
 	if sc.Reset != "" {
 		s.cfg.Checkpoint.AutoReset = sc.Reset
+	}
+	if sc.SkipAt > 0 {
+		t := time.Unix(int64(1700000000+sc.SkipAt), 0)
+		s.cfg.Dcp.Listener.SkipUntil = &t
 	}
 	if sc.MetaBucket != "" {
 		// the connector's documents are configured to live in another bucket than the streamed one (the store itself is
@@ -554,6 +560,23 @@ func (s *session) rebalance(op hOp) {
 			s.label("scrape_inside_" + at)
 		}
 	}
+	// C12: a transient stream end of a vBucket of the NEW session arriving while the rebalance is still completing (its
+	// own request already answered, AfterStreamStart running): the vBucket has not ended for good
+	endedInRebalance := -1
+	if s.oracles["C12"] && op.Snap%3 == 0 && !(s.scrapeClosed != nil && op.AtL) {
+		vb := s.lo + ((op.Vb%(s.hi-s.lo+1))+(s.hi-s.lo+1))%(s.hi-s.lo+1)
+		n0 := len(s.cl.openLog())
+		s.hand.hook("ASStart", func() {
+			opened := false
+			for _, r := range s.cl.openLog()[n0:] {
+				opened = opened || (int(r.Vb) == vb && r.Err == "")
+			}
+			if o := s.cl.observer(uint16(vb)); o != nil && opened {
+				endedInRebalance = vb
+				o.End(models.DcpStreamEnd{VbID: uint16(vb)}, gocbcore.ErrDCPStreamStateChanged)
+			}
+		})
+	}
 	ok, pv := within(20*time.Second, func() { s.st.Rebalance() })
 	if !ok || pv != nil {
 		s.fail("C04", "Rebalance() did not return cleanly (returned=%v panic=%v)", ok, pv)
@@ -576,9 +599,32 @@ func (s *session) rebalance(op hOp) {
 		}
 		time.Sleep(200 * time.Microsecond)
 	}
+	if endedInRebalance >= 0 {
+		s.label("transient_end_while_rebalance_completes")
+		deadline := time.Now().Add(10 * time.Second)
+		for {
+			n := 0
+			for _, r := range s.cl.openLog()[nOpens:] {
+				if int(r.Vb) == endedInRebalance && r.Err == "" {
+					n++
+				}
+			}
+			if n >= 2 {
+				break
+			}
+			if time.Now().After(deadline) {
+				s.fail("C12", "vb %d: its stream ended with a transient cause while the rebalance was completing (after its own request had been answered) and was not requested again", endedInRebalance)
+				return
+			}
+			time.Sleep(200 * time.Microsecond)
+		}
+	}
 	s.trackSeen = len(s.cons.trackLog())
 	s.trackBase = s.trackSeen
 	s.buildModel(nOpens)
+	if endedInRebalance >= 0 && s.oracles["C12"] {
+		s.checkActive()
+	}
 	s.settledAtSave = map[uint16]int{}
 	s.genAtSave = map[uint16]int{}
 	s.rebalances++
@@ -803,7 +849,15 @@ func (s *session) deliver(op hOp) {
 	before := s.cons.count()
 	feedEvent(o, m.vb, e)
 	evs := s.cons.snapshot()
-	if isAbsorbedKind(e.Kind) {
+	if isDocKind(e.Kind) && s.beforeSkipUntil(e) {
+		// a document event (also one under a reserved key) older than skipUntil is dropped by the observer: not shown,
+		// not counted, no position change
+		if len(evs) != before {
+			s.fail("C03", "vb %d: %s event seq %d lies before skipUntil but was delivered", m.vb, e.Kind, e.Seq)
+		}
+		ev.skipped = true
+		s.label("dropped_before_skip_until")
+	} else if isAbsorbedKind(e.Kind) {
 		if len(evs) != before {
 			s.fail("C14", "vb %d: %s event seq %d (key %q) reached the consumer", m.vb, e.Kind, e.Seq, e.Key)
 		}
@@ -843,6 +897,12 @@ func (s *session) deliver(op hOp) {
 		m.pending = append(m.pending, ev)
 	}
 	s.checkTracks()
+}
+
+// beforeSkipUntil: the event time the harness gives an event is 1 700 000 000 s + its seqno (see feedEvent)
+func (s *session) beforeSkipUntil(e srvEvent) bool {
+	su := s.cfg.Dcp.Listener.SkipUntil
+	return su != nil && time.Unix(int64(1700000000+e.Seq), 0).Before(*su)
 }
 
 // settle records that an event became settled (acknowledged or absorbed) at the current step.
